@@ -293,22 +293,24 @@ positive answer means, so that everything proved about runs of `dstep` holds of 
 /-- **The checker is exact**: it answers `ok` iff the witness is a finished run of the driver model
 whose log is the observed log and whose per-file results are the observed status tags. -/
 theorem trace_replay_iff {c : DCfg} {labels : List DLabel} {observed : List CEv}
-    {tags : List FileResult} :
-    traceCheck c labels observed tags = .ok ↔
+    {tags : List FileResult} {exitZero : Bool} :
+    traceCheck c labels observed tags exitZero = .ok ↔
       ∃ s, drun c (dinit c) labels = some s ∧ s.phase = .finished ∧
         stripCancel s.log = stripCancel observed ∧ tags.length = c.files.length ∧
-        ∀ i, i < c.files.length → resultOf s.results i = tags[i]? := by
+        (∀ i, i < c.files.length → resultOf s.results i = tags[i]?) ∧
+        dexitOk s = exitZero := by
   constructor
   · intro h
     obtain ⟨s, hs⟩ := traceCheck_ok h
-    exact ⟨s, hs.run, hs.finished, hs.log, hs.ntags, hs.results⟩
-  · rintro ⟨s, h1, h2, h3, h4, h5⟩
-    exact traceCheck_complete ⟨h1, h2, h3, h4, h5⟩
+    exact ⟨s, hs.run, hs.finished, hs.log, hs.ntags, hs.results, hs.exit⟩
+  · rintro ⟨s, h1, h2, h3, h4, h5, h6⟩
+    exact traceCheck_complete ⟨h1, h2, h3, h4, h5, h6⟩
 
 /-- **An observed run that replays satisfies the specification of C17**: the model run with the same
 engine-side events is accepted by the monitor, hence (for a parallel run) satisfies `MonSpec`. -/
 theorem trace_replay_accepted {c : DCfg} {mgmt : Str} {labels : List DLabel} {observed : List CEv}
-    {tags : List FileResult} (wf : DWf c mgmt) (h : traceCheck c labels observed tags = .ok) :
+    {tags : List FileResult} {exitZero : Bool} (wf : DWf c mgmt)
+    (h : traceCheck c labels observed tags exitZero = .ok) :
     ∃ s : DSt, stripCancel s.log = stripCancel observed ∧ s.inflight.length ≤ c.jobs ∧
       accepts (monCfgOf c mgmt s) s.log = none ∧
       (c.jobs > 0 → MonSpec (monCfgOf c mgmt s) s.log) := by
@@ -320,7 +322,8 @@ theorem trace_replay_accepted {c : DCfg} {mgmt : Str} {labels : List DLabel} {ob
 replay operation of the driver answers `accept` only if `traceCheck … = ok` and `dwfB c mgmt = true`,
 which is all the conclusion needs. -/
 theorem trace_replay_checked {c : DCfg} {mgmt : Str} {labels : List DLabel} {observed : List CEv}
-    {tags : List FileResult} (hw : dwfB c mgmt = true) (h : traceCheck c labels observed tags = .ok) :
+    {tags : List FileResult} {exitZero : Bool} (hw : dwfB c mgmt = true)
+    (h : traceCheck c labels observed tags exitZero = .ok) :
     ∃ s : DSt, stripCancel s.log = stripCancel observed ∧ s.inflight.length ≤ c.jobs ∧
       accepts (monCfgOf c mgmt s) s.log = none ∧
       (c.jobs > 0 → MonSpec (monCfgOf c mgmt s) s.log) :=
@@ -331,16 +334,17 @@ example : dwfB exCfg (kw "main") = true := by decide
 -- the checker on the example runs: the model's own log replays, a log with one event missing or a
 -- result changed does not
 example : traceCheck exCfg exRunClose
-    exCloseLog [.ok, .ok, .ok] = .ok := by decide
+    exCloseLog [.ok, .ok, .ok] true = .ok := by decide
 example : traceCheck exCfg exRunClose
-    (exCloseLog.drop 1) [.ok, .ok, .ok] = .logDiffers 0 := by
+    (exCloseLog.drop 1) [.ok, .ok, .ok] true = .logDiffers 0 := by
   decide
 example : traceCheck exCfg exRunClose
-    exCloseLog [.ok, .err, .ok] = .resultDiffers 1 := by
+    exCloseLog [.ok, .err, .ok] true = .resultDiffers 1 := by
   decide
 example : traceCheck exCfg (exRunClose.take 5)
-    exCloseLog [.ok, .ok, .ok] = .notFinished := by
+    exCloseLog [.ok, .ok, .ok] true = .notFinished := by
   decide
-example : traceCheck exCfg (.start :: exRunClose) [] [.ok, .ok, .ok] = .stuck 0 := by decide
+example : traceCheck exCfg exRunClose exCloseLog [.ok, .ok, .ok] false = .exitDiffers := by decide
+example : traceCheck exCfg (.start :: exRunClose) [] [.ok, .ok, .ok] true = .stuck 0 := by decide
 
 end Slt.C17
